@@ -616,6 +616,11 @@ func generate(cfg *hx.Config) {
 		}
 		emit("mp", m)
 	}
+	// 3c. messages as MODIFIERS can leave them: the ContentLength field, the
+	//     TransferEncoding field and the Body as independent dimensions
+	for i := 0; i < 160*mult; i++ {
+		emit("tri", genTriple(rng.Fork(), i))
+	}
 	// 4a. boundary values of the entry fields (cookies with every attribute, statuses,
 	//     versions, header / query values)
 	for i := 0; i < 300*mult; i++ {
@@ -654,4 +659,52 @@ func generate(cfg *hx.Config) {
 		}
 		emit("bigres", p)
 	}
+}
+
+// genTriple: ContentLength in {-1, 0, n, n-1, n+1, 1} x TransferEncoding in
+// {none, chunked} x Body of 0 / n bytes; statuses and methods that allow a body.
+func genTriple(r *hx.RNG, i int) *msgIn {
+	n := []int{0, 0, 1, 3, 64, 700}[r.Intn(6)]
+	plain := genBytes(r, n, r.Intn(4))
+	m := &msgIn{hdr: http.Header{}, proto: pick(r, "HTTP/1.1", "HTTP/1.1", "HTTP/1.0"), opt: pick(r, "all", "all", "default", "none"), rm: "GET", clSet: true}
+	m.body = plain
+	ct := pick(r, "text/plain", "application/octet-stream", "application/json", "")
+	if ct != "" {
+		m.hdr["Content-Type"] = []string{ct}
+	}
+	if i%2 == 0 {
+		m.kind = "REQ"
+		m.method = pick(r, "POST", "PUT", "GET", "DELETE")
+		m.url = "http://example.com/built-by-a-modifier"
+		m.host = "example.com"
+		if r.Chance(1, 5) && n > 0 {
+			m.hdr["Content-Type"] = []string{"application/x-www-form-urlencoded"}
+			m.body = []byte("a=1&b=2")
+		}
+	} else {
+		m.kind = "RES"
+		m.status = []int{200, 200, 201, 302, 404, 500, 206}[r.Intn(7)]
+		if r.Chance(1, 4) && n > 0 {
+			m.hdr["Content-Encoding"] = []string{"gzip"}
+			m.body = gz(plain)
+		}
+	}
+	l := int64(len(m.body))
+	m.cl = []int64{-1, 0, 0, l, l, l - 1, l + 1, 1}[r.Intn(8)]
+	if m.cl < -1 {
+		m.cl = -1
+	}
+	if r.Chance(1, 3) {
+		m.te = []string{"chunked"}
+	}
+	// a stale Content-Length header line in the map, or none, independently of the field
+	switch r.Intn(3) {
+	case 0:
+		m.hdr["Content-Length"] = []string{strconv.FormatInt(l, 10)}
+	case 1:
+		if m.cl >= 0 {
+			m.hdr["Content-Length"] = []string{strconv.FormatInt(m.cl, 10)}
+		}
+	}
+	return m
 }
